@@ -41,9 +41,8 @@ def insert_virtual(rng, case):
     out = []
     out.append(('{[#V].' + body + '}.' + rest, 'first'))
     import re
-    if not re.search(r'\|\d+$', body):     # a bond symbol directly after a multiplier is a separate finding (C05, R3)
-        out.append(('{' + body + '.[#V]}.' + rest, 'last'))
-        out.append(('{[#V].' + body + '.[#W].[#V]}.' + rest, 'several'))
+    out.append(('{' + body + '.[#V]}.' + rest, 'last'))          # also directly after a multiplier: '|3.[#V]'
+    out.append(('{[#V].' + body + '.[#W].[#V]}.' + rest, 'several'))
     # after the first node: as a zero-bonded branch
     k = body.find(']')
     if k > 0:
